@@ -21,6 +21,7 @@ import types
 
 _OBJECTS: dict[int, bytes] = {}
 _COUNTER = [0]
+LAST_REF = [None]        # the reference created last (the tracer reads it instead of an executor's private job list)
 _ACTORS: dict = {}
 _CHOOSER = [None]
 WAIT_LOG: list = []  # (batch size, chosen index) per ray.wait call; cleared by reset()
@@ -53,7 +54,10 @@ class ObjectRef:
 def _store(value, tag=None) -> ObjectRef:
     _COUNTER[0] += 1
     _OBJECTS[_COUNTER[0]] = pickle.dumps(value, protocol=pickle.HIGHEST_PROTOCOL)
-    return ObjectRef(_COUNTER[0], tag)
+    ref = ObjectRef(_COUNTER[0], tag)
+    if tag is not None:          # a job's result (remote functions tag their references with the function name)
+        LAST_REF[0] = ref
+    return ref
 
 
 def _copy(x):
